@@ -5,7 +5,13 @@
 /* ---- hooks configurations (C08, C14): custom allocator without realloc, or the default libc triple */
 #define HOOKS_CUSTOM(h) ((h).allocate == vf_alloc && (h).deallocate == vf_free && (h).reallocate == NULL)
 #define HOOKS_LIBC(h)   ((h).allocate == vf_libc_malloc && (h).deallocate == vf_libc_free && (h).reallocate == vf_libc_realloc)
+#if defined(VF_ONLY_CUSTOM)
+#define HOOKS_OK(h)     HOOKS_CUSTOM(h)
+#elif defined(VF_ONLY_LIBC)
+#define HOOKS_OK(h)     HOOKS_LIBC(h)
+#else
 #define HOOKS_OK(h)     (HOOKS_CUSTOM(h) || HOOKS_LIBC(h))
+#endif
 /* C14: with custom hooks installed the libc allocator names are never called */
 #define C14_POST(h)     (HOOKS_CUSTOM(h) ==> g_libc_calls == __CPROVER_old(g_libc_calls))
 
